@@ -93,3 +93,10 @@ func init() {
 func init() {
 	Props["XBS"] = PropDef{Explanation: "debug: bitstorage", Run: func(c *Ctx) []core.Ob { return c.BitStorageGuards() }}
 }
+
+func init() {
+	Props["XERR"] = PropDef{Explanation: "debug: errflow", Run: func(c *Ctx) []core.Ob {
+		in := pkgPred("nbt", "nbt/dynbt", "net/packet", "net", "level", "chat", "registry", "save/region", "server", "server/auth", "bot")
+		return c.ErrFlow(in, in)
+	}}
+}
